@@ -154,7 +154,7 @@ def check(ctx: Ctx) -> None:
     for r in recs[:: max(1, len(recs) // 5)]:
         ctx.sample(r, cap=5)
     probe = Ctx.__new__(Ctx)
-    probe.__dict__.update({"violations": [], "findings": [], "known_hits": {}, "evaluations": 0, "distinct": set()})
+    probe.__dict__.update({"_per_key": {}, "violations": [], "findings": [], "known_hits": {}, "evaluations": 0, "distinct": set()})
     bad = [dict(r) for r in recs if r["kind"] == "european_binary" and not r["ops"] and len(r["path"]) == 2][:30]
     for b in bad:       # expect '>' instead of '>=': flip the value on ties with the strike
         if fr(b["strike"]) == b["path"][-1]:
